@@ -181,7 +181,7 @@ PARSE_RANGE_HEADER = Spec(
     qualname="parse_range_header",
     name="parse_range_header",
     params=[("value", "Option Str"), ("make_inclusive", "Bool")],
-    locals={"#1": RANGES_TY},  # (locals by position: #1 = ranges)
+    locals={"[]#1": RANGES_TY},  # (locals by start value / position: #1 = ranges)
     result=f"Option (Str × {RANGES_TY})",
     raises=True,  # `units, rng = value.split("=", 1)` and `ds.Range(...)` can raise: proved impossible
     calls={
@@ -321,7 +321,7 @@ PARSE_ETAGS = Spec(
     qualname="parse_etags",
     name="parse_etags",
     params=[("value", "Option Str")],
-    locals={"#1": f"List ({_OS})", "#2": f"List ({_OS})"},  # (locals by position: #1 = strong, #2 = weak)
+    locals={"[]#1": f"List ({_OS})", "[]#2": f"List ({_OS})"},  # (locals by start value / position: #1 = strong, #2 = weak)
     result="ETags",
     raises=True,  # only the fuel marker of the while loop
     # `_etag_re.match(value, pos)`: C06's hand model of the regex (`Http.etagMatch`, validated by the
@@ -547,8 +547,8 @@ PIN_AUTH = Spec(
     # the two cookie statements are pinned by their exact source text; their modelled effect is the
     # third component of the answer
     effects={
-        "rv.set_cookie(self.pin_cookie_name, f'{int(time.time())}|{hash_pin(pin)}', httponly=True, samesite='Strict', secure=request.is_secure)": [("rv", "(rv[0], rv[1], 1)")],
-        "rv.delete_cookie(self.pin_cookie_name)": [("rv", "(rv[0], rv[1], 2)")],
+        "$rv.set_cookie(self.pin_cookie_name, f'{int(time.time())}|{hash_pin($p)}', httponly=True, samesite='Strict', secure=request.is_secure)": [("$rv", "($rv[0], $rv[1], 1)")],
+        "$rv.delete_cookie(self.pin_cookie_name)": [("$rv", "($rv[0], $rv[1], 2)")],
     },
     patterns=[
         (_src_matcher("self.check_host_trust(request.environ)"), Fn("host_trusted", [], BOOL)),
@@ -712,7 +712,7 @@ SHARED_DATA_CALL = Spec(
     ],
     calls={"self.is_allowed": Fn("is_allowed", [STR], BOOL)},
     callables={"Ldr": Fn("call_loader", [_LAM, Opt(STR)], Tup(Opt(STR), Opt(_PHI)))},
-    locals={"#2": "Option Fld"},  # (locals by position: #2 = file_loader)
+    locals={"None#1": "Option Fld"},  # (locals by start value / position: #2 = file_loader)
     maybe_unbound={"#5": "Option Str"},  # #5 = real_filename
     stop_at=("$g = mimetypes.guess_type($r)", "($r, #2)"),  # #2 = file_loader
 )
@@ -783,7 +783,7 @@ LS_READINTO = Spec(
     result="Int",
     raises=True,
     static={"hasattr(self._stream, 'readinto')": None},
-    locals={"#3": "Option Int"},  # (locals by position: #3 = out_size)
+    locals={"~self._stream.readinto(b)": "Option Int"},  # (locals by position: #3 = out_size)
     calls={
         "self.on_exhausted": Fn("ls_on_exhausted", [], py2lean.NONE, raises=("RequestEntityTooLarge",), extra=("self__limit_is_max",)),
         "self._stream.read": Fn("underRead", [INT], py2lean.BYTES, raises=("OSError",), effect_key="self.u", error_keeps_state=True),
@@ -965,7 +965,7 @@ RANGE_TO_HEADER = Spec(
     qualname="Range.to_header",
     name="range_to_header",
     params=[("self.units", "Str"), ("self.ranges", RANGES_TY)],
-    locals={"#1": "List Str"},  # (locals by position: #1 = ranges)
+    locals={"[]#1": "List Str"},  # (locals by start value / position: #1 = ranges)
     result="Str",
 )
 
@@ -975,7 +975,7 @@ PARSE_LIST_HEADER = Spec(
     qualname="parse_list_header",
     name="parse_list_header",
     params=[("value", "Str")],
-    locals={"#1": "List Str"},  # (locals by position: #1 = result)
+    locals={"[]#1": "List Str"},  # (locals by start value / position: #1 = result)
     result="List Str",
     raises=True,  # item[0] / item[-1] raise IndexError on "": proved impossible (len guard)
     # `urllib.request.parse_http_list` (imported as `_parse_list_header`) is C06's hand model
@@ -994,7 +994,7 @@ DUMP_HEADER_LIST = Spec(
     name="dump_header_list",
     # the non-dict branch: an iterable of `str` items
     params=[("iterable", "List Str")],
-    locals={"#1": "List Str"},  # (locals by position: #1 = items)
+    locals={"[]#1": "List Str"},  # (locals by start value / position: #1 = items)
     result="Str",
     raises=True,
     calls={"quote_header_value": _QHV},
@@ -1006,7 +1006,7 @@ DUMP_HEADER_DICT = Spec(
     name="dump_header_dict",
     # the dict branch: values are `str` or None (`t.Any` restricted as in the model)
     params=[("iterable", "Dict Str (Option Str)")],
-    locals={"#1": "List Str"},  # (locals by position: #1 = items)
+    locals={"[]#1": "List Str"},  # (locals by start value / position: #1 = items)
     result="Str",
     raises=True,  # key[-1] raises IndexError for an empty key
     calls={"quote_header_value": _QHV},
@@ -1017,7 +1017,7 @@ DUMP_OPTIONS_HEADER = Spec(
     qualname="dump_options_header",
     name="dump_options_header",
     params=[("header", "Option Str"), ("options", "Dict Str (Option Str)")],
-    locals={"#1": "List Str"},  # (locals by position: #1 = segments)
+    locals={"[]#1": "List Str"},  # (locals by start value / position: #1 = segments)
     result="Str",
     raises=True,  # key[-1] raises IndexError for an empty key
     calls={"quote_header_value": _QHV},
@@ -1211,7 +1211,7 @@ PARSE_CSP_HEADER = Spec(
     # `cls` (default ContentSecurityPolicy, a dict subclass built from the item list) and `on_update`
     # are only handed on: the result is the item list the constructor receives
     params=[("value", "Option Str"), ("on_update", "Unit"), ("cls", "Unit")],
-    locals={"#1": "List (Str × Str)"},  # (locals by position: #1 = items)
+    locals={"[]#1": "List (Str × Str)"},  # (locals by start value / position: #1 = items)
     result="List (Str × Str)",
     raises=True,
     static={"cls is None": False},
@@ -1242,7 +1242,7 @@ PARSE_DICT_HEADER = Spec(
     qualname="parse_dict_header",
     name="parse_dict_header",
     params=[("value", "Str")],
-    locals={"#1": "Dict Str (Option Str)"},  # (locals by position: #1 = result)
+    locals={"{}#1": "Dict Str (Option Str)"},  # (locals by start value / position: #1 = result)
     result="Dict Str (Option Str)",
     raises=True,
     calls={
@@ -1356,7 +1356,7 @@ PARSE_OPTIONS_HEADER = Spec(
     qualname="parse_options_header",
     name="parse_options_header",
     params=[("value", "Option Str")],
-    locals={"#3": "List (Str × Str)", "#9": "Dict Str Str", "#10": "Option Str", "#11": "Option Str"},  # (locals by position: #3 = parts, #9 = options, #10 = encoding, #11 = continued_encoding)
+    locals={"[]#1": "List (Str × Str)", "{}#1": "Dict Str Str", "None#1": "Option Str", "None#2": "Option Str"},  # (locals by start value / position: #3 = parts, #9 = options, #10 = encoding, #11 = continued_encoding)
     result="Str × Dict Str Str",
     raises=True,
     retype=["m"],
@@ -1402,7 +1402,7 @@ PARSE_ACCEPT_HEADER = Spec(
     orders={"κ": "qle"},
     abs_lits={("κ", 0): "qzero", ("κ", 1): "qone"},
     params=[("value", "Option Str"), ("cls", "Unit")],
-    locals={"#1": "List (Str × κ)", "#5": "κ"},  # (locals by position: #1 = result, #5 = q)
+    locals={"[]#1": "List (Str × κ)", "~float($s)": "κ"},  # (locals by start value / position: #1 = result, #5 = q)
     result="Option (List (Str × κ))",
     raises=True,
     needs_fuel=True,
@@ -1781,7 +1781,7 @@ SANSIO_PARSE_COOKIE = Spec(
     name="sansio_parse_cookie",
     # `cls(out)` / `cls()`: the result is the pair list handed to the MultiDict class
     params=[("cookie", "Option Str"), ("cls", "Unit")],
-    locals={"#1": "List (Str × Str)"},  # (locals by position: #1 = out)
+    locals={"[]#1": "List (Str × Str)"},  # (locals by start value / position: #1 = out)
     result="List (Str × Str)",
     raises=True,  # cv[0] / cv[-1] raise IndexError on "": proved impossible (len guard)
     static={"cls is None": False},
@@ -2012,8 +2012,8 @@ DISPATCHER_CALL = Spec(
         (_src_matcher("app(environ, start_response)"), Fn("app", [], py2lean.Abs("α"))),
     ],
     effects={
-        "environ['SCRIPT_NAME'] = original_script_name + script": [("self.out_script_name", "original_script_name + script")],
-        "environ['PATH_INFO'] = path_info": [("self.out_path_info", "path_info")],
+        "environ['SCRIPT_NAME'] = $o + $s": [("self.out_script_name", "$o + $s")],
+        "environ['PATH_INFO'] = $p": [("self.out_path_info", "$p")],
     },
 )
 py2lean.ABSTRACT_TYPES.add("α")
@@ -2158,7 +2158,7 @@ PARSE_HEADERS = Spec(
     params=[("data", "Bytes")],
     result="List (Str × Str)",
     raises=True,
-    locals={"#1": "List (Str × Str)"},  # (locals by position: #1 = headers)
+    locals={"[]#1": "List (Str × Str)"},  # (locals by start value / position: #1 = headers)
     # `HEADER_CONTINUATION_RE.sub(b" ", data)`, `bytes.splitlines()`, `bytes.strip()`: the hand-written
     # kernels of Model/Multipart.lean (stream regex-kernels); `bytes.decode()` is strict UTF-8
     calls={"Headers": Fn("id", [_HDRS], _HDRS)},
@@ -2234,7 +2234,7 @@ NEXT_EVENT = Spec(
         "NEED_DATA": ("Wz.Multipart.Event.needData", _MP_EVENT),
         "SEARCH_EXTRA_LENGTH": ("(Wz.Multipart.searchExtra : Nat)", "Int"),
     },
-    locals={"#1": _MP_EVENT},  # (locals by position: #1 = event)
+    locals={"~NEED_DATA": _MP_EVENT},  # (locals by position: #1 = event)
     calls={
         "self.preamble_re.search": Fn("preambleReSearch self_boundary", [py2lean.BYTES, INT], Opt(_MPM)),
         "BLANK_LINE_RE.search": Fn("blankLineReSearch", [py2lean.BYTES, INT], Opt(_MPM)),
@@ -2455,7 +2455,7 @@ MD_GETLIST_TYPED = Spec(
     static={"type is None": False},
     patterns=_MD_READS, calls={"list": Fn("id", [_LNU], _LNU)},
     callables={"Conv": Fn("call_type", [py2lean.Abs("Conv"), _NU], _TAU_T, raises=("ValueError", "TypeError"))},
-    locals={"#2": "List τ"},  # (locals by position: #2 = result)
+    locals={"[]#1": "List τ"},  # (locals by start value / position: #2 = result)
     module=_MDS, type_params=["ν", "τ", "Conv"], in_ops=_MD_COMMON["in_ops"],
 )
 MD_SETLIST = Spec(
@@ -2566,7 +2566,8 @@ def _environ_get(n):
     """`environ_get(K)` / `environ.get(K)` -> [environ, K]"""
     import ast
 
-    if isinstance(n, ast.Call) and len(n.args) == 1 and not n.keywords and py2lean.dotted(n.func) in ("environ_get", "environ.get"):
+    # (`environ_get = environ.get` is the only local the function calls: any other plain name called with one argument)
+    if isinstance(n, ast.Call) and len(n.args) == 1 and not n.keywords and (py2lean.dotted(n.func) == "environ.get" or (isinstance(n.func, ast.Name) and n.func.id not in ("len", "str", "int", "bool", "list", "tuple"))):
         return [ast.Name(id="environ", ctx=ast.Load()), n.args[0]]
     return None
 
@@ -2618,7 +2619,7 @@ PROXY_FIX_CALL = Spec(
     result="Dict Str Str",
     raises=True,
     effects={
-        "environ_get = environ.get": [],
+        "$g = environ.get": [],
         _find_stmt_text(_PF, "ProxyFix.__call__", "environ.update({'werkzeug.proxy_fix.orig'") or "environ.update(...)": [],
     },
     patterns=[
@@ -3235,7 +3236,7 @@ ACC_TO_HEADER = Spec(
     qualname="Accept.to_header", name="to_header",
     # `f"{value};q={quality}"` prints the float: `qstr`; `quality != 1` through the order
     opaque=[_N, ("qone", "κ"), ("qstr", "κ → Pre.Str")],
-    params=[_SELF], result="Str", locals={"#1": "List Str"},  # (locals by position: #1 = result)
+    params=[_SELF], result="Str", locals={"[]#1": "List Str"},  # (locals by start value / position: #1 = result)
     abs_lits={("κ", 1): "qone"}, abs_str={"κ": "qstr"}, **_ACC,
 )
 ACC_GETITEM_STR = Spec(
@@ -3306,7 +3307,7 @@ HEADERS_DEL_KEY = Spec(
     name="headers_del_key",
     params=[("self._list", _HL), ("key", "Str")],
     state=["_list"],
-    locals={"#1": _HL},  # (locals by position: #1 = new)
+    locals={"[]#1": _HL},  # (locals by start value / position: #1 = new)
     result="Unit",
 )
 HEADERS_REMOVE = Spec(
